@@ -642,7 +642,9 @@ func updItems(us []*api.ContainerUpdate) []string {
 	return items
 }
 
-func pod(id string) *api.PodSandbox { return &api.PodSandbox{Id: id, Name: id, Uid: id, Namespace: "ns"} }
+func pod(id string) *api.PodSandbox {
+	return &api.PodSandbox{Id: id, Name: id, Uid: id, Namespace: "ns"}
+}
 func ctr(id string) *api.Container {
 	return &api.Container{Id: id, PodSandboxId: id, Name: id, State: api.ContainerState_CONTAINER_CREATED}
 }
